@@ -2,4 +2,4 @@ From LV Require Import Base.Res Cont.ContSpec Cont.ArrayModel.
 Require Extraction.
 Require Import ExtrOcamlBasic.
 Extraction "cont_array_model.ml" num_anchor arr_new arr_list_step arr_vec_step arr_map_step
-  arr_list_readback arr_vec_readback arr_map_readback arr_dump run_m is_ok.
+  arr_list_readback arr_vec_readback arr_map_readback arr_dump arr_list_dup arr_strict_dup run_m is_ok.
